@@ -347,8 +347,57 @@ func (sw *SpecWorld) parseDirective(file, pkg string, d rawLine, body []rawLine)
 		case "lemma":
 			full = "lemma:" + key
 		}
-		if _, dup := sw.ByKey[full]; dup {
-			return fmt.Errorf("contract %s declared twice", full)
+		if prev, dup := sw.ByKey[full]; dup {
+			// several blocks for one function (one per concern) are merged
+			if kw == "lemma" {
+				return fmt.Errorf("lemma %s declared twice", full)
+			}
+			if prev.Mode != "" && c.Mode != "" && prev.Mode != c.Mode {
+				return fmt.Errorf("contract %s: conflicting modes %s / %s", full, prev.Mode, c.Mode)
+			}
+			if prev.Mode == "" {
+				prev.Mode = c.Mode
+			}
+			if prev.Safety == "" {
+				prev.Safety = c.Safety
+			}
+			for _, p := range c.Props {
+				if !prev.HasProp(p) {
+					prev.Props = append(prev.Props, p)
+				}
+			}
+			prev.Requires = append(prev.Requires, c.Requires...)
+			prev.Ensures = append(prev.Ensures, c.Ensures...)
+			prev.Modifies = append(prev.Modifies, c.Modifies...)
+			prev.Uses = append(prev.Uses, c.Uses...)
+			prev.Ats = append(prev.Ats, c.Ats...)
+			prev.Extra = append(prev.Extra, c.Extra...)
+			for k, v := range c.Flags {
+				prev.Flags[k] = v
+			}
+			for k, l := range c.Loops {
+				if pl, ok := prev.Loops[k]; ok {
+					pl.Invs = append(pl.Invs, l.Invs...)
+					pl.Modifies = append(pl.Modifies, l.Modifies...)
+					pl.Uses = append(pl.Uses, l.Uses...)
+					if pl.Decreases == nil {
+						pl.Decreases = l.Decreases
+					}
+				} else {
+					prev.Loops[k] = l
+				}
+			}
+			for k, l := range c.LabelLoops {
+				if prev.LabelLoops == nil {
+					prev.LabelLoops = map[string]*LoopSpec{}
+				}
+				if pl, ok := prev.LabelLoops[k]; ok {
+					pl.Invs = append(pl.Invs, l.Invs...)
+				} else {
+					prev.LabelLoops[k] = l
+				}
+			}
+			return nil
 		}
 		sw.ByKey[full] = c
 		sw.Contracts = append(sw.Contracts, c)
